@@ -119,10 +119,25 @@ func genCases(cfg vlib.Cfg, crossOK bool) []caseSpec {
 					sp.Opts, sp.TmpMount = "xtempdir", "cross"
 				}
 			case tFstree:
-				sp.Depth = 1 + i%3
-				sp.ParentExists = i%2 == 0
-				if sp.Old != "absent" {
-					sp.ParentExists = true
+				// i%4: 0 = new record under a directory that does not exist yet (Put's first attempt
+				// fails by itself and the MkdirAll + retry path publishes), 1 = replace, 2 = replace
+				// with other mode (deep key), 3 = new record directly in the base directory
+				sp.Old = []string{"absent", "present", "othermode", "absent"}[i%4]
+				sp.Depth = []int{2, 2, 3, 1}[i%4]
+				if i >= 4 && i%4 == 0 {
+					sp.Depth = 2 + r.Intn(2)
+				}
+				sp.ParentExists = sp.Old != "absent"
+				if sp.Old == "othermode" && sp.OldMode == 0o644 {
+					sp.OldMode = 0o600
+				}
+				if sp.Old == "present" {
+					sp.OldMode = 0o644
+				}
+				if i%4 == 1 {
+					// the replace case is driven by the ptrace stepper, which also enumerates the crash
+					// points of the retry that follows an injected first-attempt error (second order)
+					sp.Mech = "ptrace"
 				}
 			case tGzip:
 				sp.Old = "absent" // Unpack is a no-op when the unpacked file exists
@@ -143,7 +158,7 @@ func genCases(cfg vlib.Cfg, crossOK bool) []caseSpec {
 					sp.NewSize = 2000
 				}
 			case tDownload:
-				sp.Variant = []string{"complete", "truncated1", "chunked1", "reset1", "status1"}[i%5]
+				sp.Variant = []string{"complete", "closehalf1", "chunked1", "truncated1", "reset1", "status1", "closefull1"}[i%7]
 				sp.TmpMount = "same"
 				sp.Signed = i%3 == 2
 				if sp.NewSize == 0 {
@@ -152,7 +167,7 @@ func genCases(cfg vlib.Cfg, crossOK bool) []caseSpec {
 			}
 			add(sp)
 			// mechanism cross-check (thorough): the same case once more under the ptrace stepper
-			if cfg.Thorough() && t != tDownload && i%5 == 0 {
+			if cfg.Thorough() && t != tDownload && i%5 == 0 && sp.Mech == "" {
 				sp.Mech = "ptrace"
 				add(sp)
 			}
@@ -184,6 +199,14 @@ func readerCases(cfg vlib.Cfg) []caseSpec {
 			sp.Old, sp.Rounds = "absent", cfg.N(40, 600)
 		}
 		out = append(out, sp)
+		if t == tFstree {
+			// second fstree scenario: new records under directories that do not exist yet (Put's
+			// MkdirAll + retry path); large payload so that an in-place write is visible for long
+			nd := sp
+			nd.Case, nd.Variant, nd.Old, nd.ParentExists = 9100, "newdir", "absent", false
+			nd.NewSize, nd.Rounds = 1<<20, cfg.N(30, 300)
+			out = append(out, nd)
+		}
 	}
 	return out
 }
